@@ -119,3 +119,42 @@ Proof.
   - intros n q Hn Hq Hqn. now apply (Habs (s_env st2) I2 Hafter n q).
 Qed.
 Print Assumptions unsetup_inverts_setup_partial.
+
+(* ---- the premises of unsetup_inverts_setup_partial are jointly satisfiable ----
+   The world of Proofs/SetupExample.v (see the Example at the end of Props/C01.v): from the empty environment,
+   setup app (base resolved to 1.0 below liba and to 2.0 below libb) followed by unsetup app returns the explicit
+   state ex_after, in which no product is recorded; every premise of the theorem holds, and (by the invariant
+   theorem applied to both runs) no contribution of any declared product is left in ex_after. *)
+From Eupsv Require Import Model.SetupWf Proofs.SetupWf Proofs.SetupExample.
+
+Example c02_hypotheses_inhabited :
+  WF2 ex_world (dl_of ex_world) (rank_of ex_order) /\
+  nodollar_paths ex_world (s_env ex_st0) /\ Inv ex_world (s_env ex_st0) /\
+  (forall n, touches ex_world (levels ex_cfg 0 false) (lit "app") n -> find_setup_product ex_world (s_env ex_st0) n = None) /\
+  setup ex_world ex_cfg 20 ex_st0 ex_ds (lit "app") true 0 false = RDone true ex_final [] /\
+  setup ex_world ex_cfg 20 ex_final [] (lit "app") false 0 false = RDone true ex_after [] /\
+  (forall n, touches ex_world (levels ex_cfg 0 false) (lit "app") n -> find_setup_product ex_world (s_env ex_after) n = None) /\
+  (forall q, In q ex_world -> absent q (s_env ex_after)).
+Proof.
+  assert (H : WF2 ex_world (dl_of ex_world) (rank_of ex_order)) by (apply wf2_check_sound; vm_compute; reflexivity).
+  assert (R1 : setup ex_world ex_cfg 20 ex_st0 ex_ds (lit "app") true 0 false = RDone true ex_final [])
+    by (vm_compute; reflexivity).
+  assert (R2 : setup ex_world ex_cfg 20 ex_final [] (lit "app") false 0 false = RDone true ex_after [])
+    by (vm_compute; reflexivity).
+  assert (B : forall n, touches ex_world (levels ex_cfg 0 false) (lit "app") n ->
+                        find_setup_product ex_world (s_env ex_st0) n = None) by (intros n _; reflexivity).
+  assert (A : forall n, touches ex_world (levels ex_cfg 0 false) (lit "app") n ->
+                        find_setup_product ex_world (s_env ex_after) n = None) by (intros n _; reflexivity).
+  split; [exact H|]. split; [apply nodollar_nil|]. split; [apply Inv_nil|]. split; [exact B|].
+  split; [exact R1|]. split; [exact R2|]. split; [exact A|].
+  (* by the theorem: the state after the unsetup is consistent and records nothing, so nothing is left *)
+  assert (D : depth_ok ex_cfg 0) by exact I.
+  destruct (setup_preserves_Inv ex_world ex_cfg (dl_of ex_world) (rank_of ex_order) H 20 ex_st0 ex_ds (lit "app")
+              true 0 false true ex_final [] (nodollar_nil ex_world) D (Inv_nil ex_world) R1) as [I1 D1].
+  destruct (setup_preserves_Inv ex_world ex_cfg (dl_of ex_world) (rank_of ex_order) H 20 ex_final [] (lit "app")
+              false 0 false true ex_after [] D1 D I1 R2) as [I2 _].
+  intros q Hq. pose proof (I2 (p_name q)) as C. unfold clause in C.
+  replace (find_setup_product ex_world (s_env ex_after) (p_name q)) with (@None product) in C by reflexivity.
+  apply C. split; [assumption|reflexivity].
+Qed.
+Print Assumptions c02_hypotheses_inhabited.
